@@ -29,6 +29,9 @@ type RdbWriter struct {
 	observer atomic.Pointer[Observer]
 	dir      string
 	wait     usync.WaitCloser
+	// the error of the commit (sync, close, rename of a completely received snapshot) :
+	// written by the wait's closer before the wait is cancelled, read by Wait afterwards
+	commitErr error
 }
 
 type RdbFile struct {
@@ -85,7 +88,7 @@ func NewRdbWriter(id string, r io.Reader, rdbDir string, offset int64, rdbSize i
 	var obr Observer = &observerProxy{}
 	s.observer.Store(&obr)
 	s.wait = usync.NewWaitCloser(func(err error) {
-		s.close()
+		s.commitErr = s.close()
 	})
 
 	fn := fmt.Sprintf("%s%c%d_%d.rdb.tmp", rdbDir, os.PathSeparator, offset, rdbSize)
@@ -108,7 +111,9 @@ func (r *RdbWriter) Wait(ctx context.Context) error {
 	case <-ctx.Done():
 		return nil
 	case <-r.wait.Context().Done():
-		return r.wait.Error()
+		// a snapshot that was received completely but could not be committed is a failure of
+		// the writer : the caller must not go on as if it were held
+		return errors.Join(r.wait.Error(), r.commitErr)
 	}
 }
 
@@ -199,16 +204,23 @@ func (s *RdbWriter) closeRdb() (err error) {
 	obr := s.observer.Load()
 	if s.pumped.Load() != s.rdbSize {
 		(*obr).Close(s.left, s.rdbSize, true)
-		return errors.Join(err, os.Remove(s.fn)) // remove *.rdb.tmp file
+		os.Remove(s.fn) // remove *.rdb.tmp file
+		return nil      // not a commit : the writer was ended early, its own error says why
 	}
-	// commit first : the snapshot is announced as complete only when the file carries its
-	// final name. A failed rename left the index offering a snapshot no reader can open
-	// (and that a restart would not find).
-	dfn := strings.TrimSuffix(s.fn, ".tmp")
-	if rerr := os.Rename(s.fn, dfn); rerr != nil { // *.rdb.tmp -> *.rdb
+	// commit : the snapshot is announced as complete only when its bytes are synced and the
+	// file carries its final name. A failed fsync means the kernel may have lost what was
+	// written; a failed rename left the index offering a snapshot no reader can open (and
+	// that a restart would not find). Either way it is dropped like an incomplete one and
+	// the error is reported through Wait.
+	if err == nil {
+		dfn := strings.TrimSuffix(s.fn, ".tmp")
+		err = os.Rename(s.fn, dfn) // *.rdb.tmp -> *.rdb
+	}
+	if err != nil {
 		(*obr).Close(s.left, s.rdbSize, true)
-		return errors.Join(err, rerr, os.Remove(s.fn))
+		os.Remove(s.fn)
+		return fmt.Errorf("rdb writer : commit of %s failed : %w", s.fn, err)
 	}
 	(*obr).Close(s.left, s.rdbSize, false)
-	return err
+	return nil
 }
